@@ -343,3 +343,106 @@ Proof.
   apply andb_true_iff in H. destruct H as [H1 H2]. apply Z.eqb_eq in H1. apply Bool.eqb_prop in H2.
   rewrite pa_of_bits_ok in H1 by exact Hp. split; assumption.
 Qed.
+
+(* ---- arc = count (any integer, clamped to 0..15): SETUP_RETR low nibble := count, high nibble (ARD) from the cached
+   byte;  ard = delta (any integer, clamped to 250..4000 us): high nibble := (delta - 250) / 250, low nibble (ARC) from the
+   cached byte ---- *)
+Definition arc_value (cached count : Z) : Z := 16 * (cached / 16) + Z.max 0 (Z.min count 15).
+Definition ard_value (cached delta : Z) : Z := 16 * ((Z.max 250 (Z.min delta 4000) - 250) / 250) + cached mod 16.
+
+Lemma lor_keep_high : forall v c, 0 <= v < 256 -> 0 <= c < 16 -> Z.lor (Z.land v 240) c = 16 * (v / 16) + c.
+Proof.
+  intros v c Hv Hc.
+  pose proof (sweepZ2 (fun v c => Z.lor (Z.land v 240) c =? 16 * (v / 16) + c) 256 16) as S.
+  apply Z.eqb_eq. apply S; [vm_compute; reflexivity|lia|lia].
+Qed.
+
+Lemma lor_keep_low : forall v q, 0 <= v < 256 -> 0 <= q < 16 -> Z.lor (Z.land v 15) (Z.shiftl q 4) = 16 * q + v mod 16.
+Proof.
+  intros v q Hv Hq.
+  pose proof (sweepZ2 (fun v q => Z.lor (Z.land v 15) (Z.shiftl q 4) =? 16 * q + v mod 16) 256 16) as S.
+  apply Z.eqb_eq. apply S; [vm_compute; reflexivity|lia|lia].
+Qed.
+
+Lemma arc_value_range cached count : 0 <= cached <= 255 -> 0 <= arc_value cached count <= 255.
+Proof.
+  intros Hc. unfold arc_value.
+  assert (0 <= cached / 16 <= 15) by (split; [apply Z.div_pos; lia|apply Z.lt_succ_r; apply Z.div_lt_upper_bound; lia]).
+  lia.
+Qed.
+
+Lemma ard_value_range cached delta : 0 <= ard_value cached delta <= 255.
+Proof.
+  unfold ard_value.
+  assert (0 <= (Z.max 250 (Z.min delta 4000) - 250) / 250 <= 15).
+  { split; [apply Z.div_pos; lia|]. apply Z.lt_succ_r. apply Z.div_lt_upper_bound; lia. }
+  pose proof (Z.mod_pos_bound cached 16 ltac:(lia)). lia.
+Qed.
+
+Lemma byte_wmask4 v : 0 <= v <= 255 -> N.land (Z.to_N v) (wmask 4) = Z.to_N v.
+Proof.
+  intro H. change (wmask 4) with (N.ones 8). rewrite N.land_ones. apply N.mod_small. change (2 ^ 8)%N with 256%N. lia.
+Qed.
+
+Lemma set_arc_c count d c : 0 <= d_retry_setup d <= 255 ->
+  exists d', set_arc CB count d c = (Ok tt, d', cset c 4 (Z.to_N (arc_value (d_retry_setup d) count))).
+Proof.
+  intros Hd. unfold set_arc. cbv zeta.
+  pose proof (arc_value_range (d_retry_setup d) count Hd) as Hr. unfold arc_value in Hr.
+  mstep lia. rewrite lor_keep_high by lia. mstep lia. rewrite reg_write_c by lia. eexists. f_equal.
+  change (Z.to_N 4) with 4%N. rewrite cwrite_plain by (auto; lia). f_equal. apply byte_wmask4. exact Hr.
+Qed.
+
+Lemma set_ard_c delta d c : 0 <= d_retry_setup d <= 255 ->
+  exists d', set_ard CB delta d c = (Ok tt, d', cset c 4 (Z.to_N (ard_value (d_retry_setup d) delta))).
+Proof.
+  intros Hd. unfold set_ard, ard_bits.
+  assert (Hq : 0 <= (Z.max 250 (Z.min delta 4000) - 250) / 250 < 16).
+  { split; [apply Z.div_pos; lia|]. apply Z.div_lt_upper_bound; lia. }
+  pose proof (ard_value_range (d_retry_setup d) delta) as Hr. unfold ard_value in Hr.
+  mstep lia. rewrite lor_keep_low by lia. mstep lia. rewrite reg_write_c by lia. eexists. f_equal.
+  change (Z.to_N 4) with 4%N. rewrite cwrite_plain by (auto; lia). f_equal. apply byte_wmask4. exact Hr.
+Qed.
+
+Theorem set_arc_world me count d w :
+  (me < length (radios w))%nat -> 0 <= d_retry_setup d <= 255 ->
+  exists d1 w1, set_arc (WB me) count d w = (Ok tt, d1, w1)
+    /\ cview (get_radio w1 me) = cset (cview (get_radio w me)) 4 (Z.to_N (arc_value (d_retry_setup d) count))
+    /\ (forall j, j <> me -> cview (get_radio w1 j) = cview (get_radio w j)).
+Proof.
+  intros Hme Hd. destruct (set_arc_c count d (cview (get_radio w me)) Hd) as (d' & E).
+  destruct (sim_run me _ _ d w (sim_set_arc me count) Hme _ _ _ E) as (d1 & w1 & E1 & _ & Hcv & Hf & _).
+  exists d1, w1. repeat split; assumption.
+Qed.
+
+Theorem set_ard_world me delta d w :
+  (me < length (radios w))%nat -> 0 <= d_retry_setup d <= 255 ->
+  exists d1 w1, set_ard (WB me) delta d w = (Ok tt, d1, w1)
+    /\ cview (get_radio w1 me) = cset (cview (get_radio w me)) 4 (Z.to_N (ard_value (d_retry_setup d) delta))
+    /\ (forall j, j <> me -> cview (get_radio w1 j) = cview (get_radio w j)).
+Proof.
+  intros Hme Hd. destruct (set_ard_c delta d (cview (get_radio w me)) Hd) as (d' & E).
+  destruct (sim_run me _ _ d w (sim_set_ard me delta) Hme _ _ _ E) as (d1 & w1 & E1 & _ & Hcv & Hf & _).
+  exists d1, w1. repeat split; assumption.
+Qed.
+
+(* one field is set, the other kept: reading the nibbles of the written byte *)
+Lemma arc_value_fields cached count : 0 <= cached <= 255 ->
+  arc_value cached count mod 16 = Z.max 0 (Z.min count 15) /\ arc_value cached count / 16 = cached / 16.
+Proof.
+  intros Hc. unfold arc_value. assert (Hk : 0 <= Z.max 0 (Z.min count 15) < 16) by lia.
+  generalize dependent (Z.max 0 (Z.min count 15)). intros k Hk.
+  split.
+  - rewrite Z.add_comm, Z.mul_comm, Z_mod_plus_full. apply Z.mod_small. exact Hk.
+  - rewrite Z.add_comm, Z.mul_comm, Z_div_plus_full by lia. rewrite Z.div_small by exact Hk. lia.
+Qed.
+
+Lemma ard_value_fields cached delta :
+  ard_value cached delta / 16 = (Z.max 250 (Z.min delta 4000) - 250) / 250 /\ ard_value cached delta mod 16 = cached mod 16.
+Proof.
+  unfold ard_value. pose proof (Z.mod_pos_bound cached 16 ltac:(lia)) as Hm.
+  generalize dependent (cached mod 16). intros k Hk.
+  split.
+  - rewrite Z.add_comm, Z.mul_comm, Z_div_plus_full by lia. rewrite Z.div_small by exact Hk. lia.
+  - rewrite Z.add_comm, Z.mul_comm, Z_mod_plus_full. apply Z.mod_small. exact Hk.
+Qed.
